@@ -252,6 +252,61 @@ func extractC01() *lean {
 	seq("validateNutsCredentialIDReturns", val, "validateNutsCredentialID")
 	seq("validateCredentialStatusReturns", val, "validateCredentialStatus")
 
+	// deepening round: the subject validators' helpers and the util.go functions now inside the model (NutsModel/C01/Subject.lean)
+	seq("validateResourcesReturns", val, "validateResources")
+	seq("validOperationReturns", val, "validOperation")
+	seq("parseLDProofReturns", res, "ParseLDProof")
+	// validOperationTypes(): the literal the function returns — a construct that is not a composite literal of string literals gives
+	// Lean that does not elaborate
+	{
+		ops := ".unknown_validOperationTypes"
+		var opsJ []string
+		if fd := funcDecl(val, "validOperationTypes"); fd != nil && fd.Body != nil && len(fd.Body.List) == 1 {
+			if rs, ok := fd.Body.List[0].(*ast.ReturnStmt); ok && len(rs.Results) == 1 {
+				if cl, ok := rs.Results[0].(*ast.CompositeLit); ok {
+					good := true
+					for _, e := range cl.Elts {
+						bl, ok := e.(*ast.BasicLit)
+						if !ok || bl.Kind != token.STRING {
+							good = false
+							break
+						}
+						s, err := strconv.Unquote(bl.Value)
+						if err != nil {
+							good = false
+							break
+						}
+						opsJ = append(opsJ, s)
+					}
+					if good {
+						ops = leanStrList(opsJ)
+					}
+				}
+			}
+		}
+		l.def("validOperationTypes", "List String", ops, opsJ)
+	}
+	// the statements of the subject validators BETWEEN the context check and the default validator, in source order (the order of
+	// the guards, the ignored Unmarshal error, the length check)
+	for _, d := range val.Decls {
+		fd, ok := d.(*ast.FuncDecl)
+		if !ok || fd.Name.Name != "Validate" || fd.Recv == nil || len(fd.Recv.List) == 0 || fd.Body == nil {
+			continue
+		}
+		recv := c01Expr(fd.Recv.List[0].Type)
+		var guards []string
+		for _, st := range fd.Body.List {
+			if is, ok := st.(*ast.IfStmt); ok {
+				g := c01Expr(is.Cond)
+				if is.Init != nil {
+					g = c01Stmt(is.Init) + "; " + g
+				}
+				guards = append(guards, g)
+			}
+		}
+		l.def("guards_"+recv, "List String", leanStrList(guards), guards)
+	}
+
 	// doVerifyVP: is the per-credential flag `checkSignature` (re)declared INSIDE the loop over the presentation's credentials?
 	// (declared outside, the exemption of a proof-less self-attested credential would leak to the credentials after it)
 	perCred := false
@@ -322,6 +377,9 @@ func extractC01() *lean {
 	_, slv := parseFile("vcr/revocation/statuslist2021_verifier.go")
 	seq("statusListVerifyReturns", slv, "Verify")
 	seq("isRevokedReturns", ver, "IsRevoked")
+	// wave 8: the error branches of the real revocation store's read (a read fault must stay an error, only "no result" is ErrNotFound)
+	_, leiaF := parseFile("vcr/verifier/leia_store.go")
+	seq("getRevocationsReturns", leiaF, "GetRevocations")
 	seq("registerRevocationReturns", ver, "RegisterRevocation")
 	// statements of the wallet's List loop / API flag rules, as text
 	stmts := func(f *ast.File, fn string) []string {
@@ -342,6 +400,50 @@ func extractC01() *lean {
 	l.def("walletListStmts", "List String", leanStrList(stmts(wal, "List")), stmts(wal, "List"))
 	l.def("apiVerifyVCStmts", "List String", leanStrList(stmts(apiF, "VerifyVC")), stmts(apiF, "VerifyVC"))
 	l.def("apiVerifyVPStmts", "List String", leanStrList(stmts(apiF, "VerifyVP")), stmts(apiF, "VerifyVP"))
+
+	// deepening round: full control flow (ifs, assignments, case labels, returns, continue/labels) of the util.go functions the model mirrors
+	flow := func(f *ast.File, fn string) []string {
+		var r []string
+		if fd := funcDecl(f, fn); fd != nil {
+			ast.Inspect(fd.Body, func(n ast.Node) bool {
+				switch x := n.(type) {
+				case *ast.IfStmt:
+					g := c01Expr(x.Cond)
+					if x.Init != nil {
+						g = c01Stmt(x.Init) + "; " + g
+					}
+					r = append(r, "if "+g)
+				case *ast.AssignStmt:
+					r = append(r, c01Stmt(x))
+				case *ast.CaseClause:
+					var cs []string
+					for _, e := range x.List {
+						cs = append(cs, c01Expr(e))
+					}
+					r = append(r, "case "+strings.Join(cs, ","))
+				case *ast.ReturnStmt:
+					var rs []string
+					for _, e := range x.Results {
+						rs = append(rs, c01Expr(e))
+					}
+					r = append(r, "return "+strings.Join(rs, ","))
+				case *ast.BranchStmt:
+					lb := ""
+					if x.Label != nil {
+						lb = " " + x.Label.Name
+					}
+					r = append(r, x.Tok.String()+lb)
+				case *ast.RangeStmt:
+					r = append(r, "range "+c01Expr(x.X))
+				}
+				return true
+			})
+		}
+		return r
+	}
+	for _, fn := range []string{"PresentationIssuanceDate", "PresentationExpirationDate", "FilterOnDIDMethod", "AutoCorrectSelfAttestedCredential"} {
+		l.def("flow_"+fn, "List String", leanStrList(flow(util, fn)), flow(util, fn))
+	}
 
 	// StatusList2021.update: how a refreshed list replaces the stored copy (every column, the expanded bitstring included)
 	var onConflict []string
